@@ -91,6 +91,40 @@ Fixpoint allow_loop (le se ce : option props) (attrs : list attr) : action :=
       end
   end.
 
+(** 225-242: an allow-list is in force and the element is on neither list *)
+Definition elem_not_allowed (ename : str) : bool :=
+  (is_some (c_allow_elements cfg) || use_strict cfg)
+  && negb (match c_allow_elements cfg with Some l => mem_str ename (bl_content l) | None => false end)
+  && negb (negb (is_override (c_allow_elements cfg)) && use_strict cfg && mem_str ename (t_elements T)).
+
+(** 245-260 *)
+Definition elem_denied (ename : str) (attrs : list attr) : bool :=
+  match oassoc ename (c_deny_schemes cfg) with
+  | Some deny => deny_loop deny attrs
+  | None => false
+  end.
+
+(** 268-277: the three scheme maps of the element *)
+Definition list_elem_schemes (ename : str) : option props :=
+  match c_allow_schemes cfg with Some l => assoc ename (bl_content l) | None => None end.
+Definition strict_elem_schemes (ename : str) : option props :=
+  if negb (is_override (c_allow_schemes cfg)) && use_strict cfg then assoc ename (t_schemes_strict T) else None.
+Definition compat_elem_schemes (ename : str) : option props :=
+  if negb (is_override (c_allow_schemes cfg)) && use_compat cfg then assoc ename (t_schemes_compat T) else None.
+
+(** 262-319 *)
+Definition scheme_action (ename : str) (attrs : list attr) : action :=
+  (* 262-265 *)
+  if negb (is_some (c_allow_schemes cfg)) && negb (use_strict cfg) then ANone
+  else
+    let le := list_elem_schemes ename in
+    let se := strict_elem_schemes ename in
+    let ce := compat_elem_schemes ename in
+    match le, se, ce with
+    | None, None, None => ANone                                       (* 279-285 *)
+    | _, _, _ => allow_loop le se ce attrs
+    end.
+
 Definition elem_action (ename : str) (attrs : list attr) (depth : N) : action :=
   (* 209-211 *)
   if omem ename (c_remove_elements cfg) then ARemove
@@ -101,28 +135,11 @@ Definition elem_action (ename : str) (attrs : list attr) (depth : N) : action :=
   (* 220-222 *)
   else if omem ename (c_ignore_elements cfg) then AIgnore
   (* 225-242 *)
-  else if (is_some (c_allow_elements cfg) || use_strict cfg)
-          && negb (match c_allow_elements cfg with Some l => mem_str ename (bl_content l) | None => false end)
-          && negb (negb (is_override (c_allow_elements cfg)) && use_strict cfg && mem_str ename (t_elements T))
-  then AIgnore
+  else if elem_not_allowed ename then AIgnore
   (* 245-260 *)
-  else if match oassoc ename (c_deny_schemes cfg) with
-          | Some deny => deny_loop deny attrs
-          | None => false
-          end
-  then AIgnore
-  (* 262-265 *)
-  else if negb (is_some (c_allow_schemes cfg)) && negb (use_strict cfg) then ANone
-  else
-    (* 268-277 *)
-    let le := match c_allow_schemes cfg with Some l => assoc ename (bl_content l) | None => None end in
-    let ov := is_override (c_allow_schemes cfg) in
-    let se := if negb ov && use_strict cfg then assoc ename (t_schemes_strict T) else None in
-    let ce := if negb ov && use_compat cfg then assoc ename (t_schemes_compat T) else None in
-    match le, se, ce with
-    | None, None, None => ANone                                       (* 279-285 *)
-    | _, _, _ => allow_loop le se ce attrs
-    end.
+  else if elem_denied ename attrs then AIgnore
+  (* 262-319 *)
+  else scheme_action ename attrs.
 
 (** ** [clean_element_attributes] (clean.rs:326-453) *)
 Inductive attr_action := AKeep | ADrop | AReplace (v : str).
@@ -132,32 +149,39 @@ Definition k_class : str := s!"class".
 (** [attr.name.ns.is_empty()] *)
 Definition is_html_attr (a : attr) : bool := match a_ns a with [] => true | _ => false end.
 
+(** 372-385: an allow-list is in force and the attribute is on neither list; only attributes
+    without namespace can be on the lists (376) *)
+Definition attr_not_allowed (ename : str) (a : attr) : bool :=
+  (is_some (c_allow_attrs cfg) || use_strict cfg)
+  && negb (is_html_attr a
+           && omem (a_name a) (match c_allow_attrs cfg with Some l => assoc ename (bl_content l) | None => None end))
+  && negb (is_html_attr a
+           && omem (a_name a) (if negb (is_override (c_allow_attrs cfg)) && use_strict cfg
+                               then assoc ename (t_attrs T) else None)).
+
+(** 386-418: the classes that stay *)
+Definition filter_classes (ename : str) (classes : list str) : list str :=
+  let c1 := match oassoc ename (c_remove_classes cfg) with
+            | Some rc => filter (fun c => negb (any_glob rc c)) classes
+            | None => classes
+            end in
+  if is_some (c_allow_classes cfg) || use_strict cfg then
+    let la := match c_allow_classes cfg with Some l => assoc ename (bl_content l) | None => None end in
+    let ma := if negb (is_override (c_allow_classes cfg)) && use_strict cfg
+              then assoc ename (t_classes T) else None in
+    filter (any_glob (match la with Some l => l | None => [] end
+                      ++ match ma with Some l => l | None => [] end)) c1
+  else c1.
+
 Definition attribute_action (ename : str) (a : attr) : attr_action :=
-  let aname := a_name a in
   (* 367-369 *)
-  if omem aname (oassoc ename (c_remove_attrs cfg)) then ADrop
-  (* 366-379: only attributes without namespace can be on the lists (370) *)
-  else if (is_some (c_allow_attrs cfg) || use_strict cfg)
-          && negb (is_html_attr a
-                   && omem aname (match c_allow_attrs cfg with Some l => assoc ename (bl_content l) | None => None end))
-          && negb (is_html_attr a
-                   && omem aname (if negb (is_override (c_allow_attrs cfg)) && use_strict cfg
-                                  then assoc ename (t_attrs T) else None))
-  then ADrop
-  (* 382-434 *)
-  else if str_eqb aname k_class then
+  if omem (a_name a) (oassoc ename (c_remove_attrs cfg)) then ADrop
+  (* 372-385 *)
+  else if attr_not_allowed ename a then ADrop
+  (* 388-434 *)
+  else if str_eqb (a_name a) k_class then
     let classes := split_ws (a_val a) in
-    let c1 := match oassoc ename (c_remove_classes cfg) with
-              | Some rc => filter (fun c => negb (any_glob rc c)) classes
-              | None => classes
-              end in
-    let c2 := if is_some (c_allow_classes cfg) || use_strict cfg then
-                let la := match c_allow_classes cfg with Some l => assoc ename (bl_content l) | None => None end in
-                let ma := if negb (is_override (c_allow_classes cfg)) && use_strict cfg
-                          then assoc ename (t_classes T) else None in
-                filter (any_glob (match la with Some l => l | None => [] end
-                                  ++ match ma with Some l => l | None => [] end)) c1
-              else c1 in
+    let c2 := filter_classes ename classes in
     if Nat.eqb (List.length c2) (List.length classes) then AKeep   (* 420-423 *)
     else match c2 with
          | [] => ADrop                                          (* 425-426 *)
